@@ -22,7 +22,7 @@ func (e *executor[R]) Apply(innerFn func(failsafe.Execution[R]) *common.PolicyRe
 		if err := e.acquirePermitsWithMaxWait(exec.Context(), exec, 1, e.maxWaitTime); err != nil {
 			if e.onRateLimitExceeded != nil && errors.Is(err, ErrExceeded) {
 				e.onRateLimitExceeded(failsafe.ExecutionEvent[R]{
-					ExecutionAttempt: exec,
+					ExecutionAttempt: exec.(policy.ExecutionInternal[R]).CopyWithResult(nil),
 				})
 			}
 			return internal.FailureResult[R](err)
